@@ -51,6 +51,15 @@ static const char *guardStr(const Bytes &s) {
   if (!s.empty()) memcpy(p, s.data(), s.size());
   p[s.size()] = 0; return (const char *)p;
 }
+// raw byte arrays (AddBuf): no terminator, the LAST byte is the last accessible one / exact-size block
+static bool g_rawSrc = false;
+static const char *guardBuf(const Bytes &s) {
+  memset(g_map, 0xA5, GPAGES * PAGE);
+  unsigned char *p = g_map + GPAGES * PAGE - s.size();
+  if (!s.empty()) memcpy(p, s.data(), s.size());
+  return (const char *)p;
+}
+static char *mallocBuf(const Bytes &s) { char *p = (char *)malloc(s.size()); if (!s.empty()) memcpy(p, s.data(), s.size()); return p; }
 static char *mallocStr(const Bytes &s) {
   char *p = (char *)malloc(s.size() + 1); if (!s.empty()) memcpy(p, s.data(), s.size()); p[s.size()] = 0; return p;
 }
@@ -78,11 +87,11 @@ static AddRes runAdd(int fill, int junk, const Bytes &s, bool guard, const AddFn
   AddRes r; tN2kMsg *m = mkMsg(fill, junk);
   std::vector<unsigned char> snap((unsigned char *)m, (unsigned char *)m + sizeof(tN2kMsg));
   if (guard) {
-    const char *p = guardStr(s);
+    const char *p = g_rawSrc ? guardBuf(s) : guardStr(s);
     if (sigsetjmp(g_jb, 1) == 0) { g_armed = 1; f(*m, p); g_armed = 0; }
     else r.fault = true;
   } else {
-    char *p = mallocStr(s); f(*m, p); free(p);
+    char *p = g_rawSrc ? mallocBuf(s) : mallocStr(s); f(*m, p); free(p);
   }
   r.len = m->DataLen; memcpy(r.data, m->Data, 223); r.objIntact = intact(m, snap.data());
   if (keep) *keep = m; else delete m;
@@ -242,7 +251,7 @@ static tN2kMsg *msgOf(const Bytes &data, int junk) {
   return m;
 }
 // run a get twice (different stale bytes behind DataLen), safety oracle; result of the first run
-static GetRes doGet(const char *what, const Bytes &data, int junk, size_t n, int dj, int idx, const GetFn &f) {
+static GetRes doGet(const char *what, const Bytes &data, int junk, size_t n, int dj, int idx, const GetFn &f, bool text = true) {
   tN2kMsg *m1 = msgOf(data, junk), *m2 = msgOf(data, (junk + 97) & 255);
   std::vector<unsigned char> snap((unsigned char *)m1, (unsigned char *)m1 + sizeof(tN2kMsg));
   GetRes a = runGetOn(*m1, n, dj, idx, f), b = runGetOn(*m2, n, dj, idx, f);
@@ -250,7 +259,7 @@ static GetRes doGet(const char *what, const Bytes &data, int junk, size_t n, int
   if (a.ret != b.ret || a.size != b.size || a.idx != b.idx || a.dst != b.dst)
     C.fail(std::string("C16:") + what + ":stale-read", "result depends on payload bytes at index >= DataLen=%zu", data.size());
   bool ok; textOf(a.dst, ok);
-  if (n > 0 && !ok) C.fail(std::string("C16:") + what + ":unterminated", "destination of %zu bytes holds no NUL", n);
+  if (text && n > 0 && !ok) C.fail(std::string("C16:") + what + ":unterminated", "destination of %zu bytes holds no NUL", n);
   delete m1; delete m2; return a;
 }
 static void outGet(const GetRes &g, bool withSize) {
@@ -321,6 +330,89 @@ static void opRtVar(int fill, int max, int uni, int chars, size_t n, int dj, int
   C.nontrivial("rtvar " + std::to_string(fill) + " " + std::to_string(max) + " " + std::to_string(uni * 2 + chars) + " " + std::to_string(n) + " " + hex(s.data(), std::min<size_t>(s.size(), 12)));
 }
 
+// ---------------------------------------------------------------------------------------------- AddVarStr(str), AddBuf, GetBuf
+static void opAddVar2(int fill, int junk, const Bytes &s) {
+  AddRes r; AddFn f = [&](tN2kMsg &m, const char *p) { m.AddVarStr(p); };
+  if (!doAdd("addvar2", fill, junk, s, f, r)) return;
+  outAdd(r);
+  Utf8Info u = classify(s);
+  checkVarField(r, fill, 5000, 1, s, u);
+  C.nontrivial("addvar2 " + std::to_string(fill) + " " + std::to_string(s.size()) + " " + hex(s.data(), std::min<size_t>(s.size(), 10)));
+}
+static void opRtVar2(int fill, size_t n, int dj, int junk, const Bytes &s) {
+  AddRes r; tN2kMsg *m = nullptr; AddFn f = [&](tN2kMsg &mm, const char *p) { mm.AddVarStr(p); };
+  if (!doAdd("addvar2", fill, junk, s, f, r, &m)) return;
+  Bytes pl(r.data, r.data + std::min(std::max(r.len, 0), 223)); delete m;
+  Utf8Info u = classify(s);
+  checkVarField(r, fill, 5000, 1, s, u);
+  GetFn g3 = [](const tN2kMsg &mm, char *b, size_t &sz, int &i) { return mm.GetVarStr(sz, b, i); };
+  GetRes g = doGet("getvar", pl, junk, n, dj, fill, g3); outGet(g, true);
+  // "GetVarStr(AddVarStr s) = s when it fit": well-formed text without 4-byte characters, field and destination large enough
+  if (u.valid && n > 0) {
+    bool bmp = true; for (uint32_t cp : u.cps) if (cp > 0xFFFF) bmp = false;
+    size_t need = u.pureAscii ? s.size() : 2 * u.cps.size();
+    if (bmp && (int)need + 2 <= 223 - fill && s.size() + 1 <= n) {
+      bool ok; Bytes t = textOf(g.dst, ok);
+      if (ok && t != s) C.fail("C16:rtvar2:text", "text that fits read back as %s, expected %s", hex(t.data(), t.size()).c_str(), hex(s.data(), s.size()).c_str());
+      if (!g.ret && !s.empty()) C.fail("C16:rtvar2:ret", "GetVarStr refused the field AddVarStr wrote");
+      if (g.idx != r.len) C.fail("C16:rtvar2:index", "Index %d after the field, DataLen %d", g.idx, r.len);
+      C.count("rt_checked");
+    }
+  }
+  C.nontrivial("rtvar2 " + std::to_string(fill) + " " + std::to_string(n) + " " + std::to_string(s.size()) + " " + hex(s.data(), std::min<size_t>(s.size(), 10)));
+}
+static void opAddBuf(int fill, int junk, const Bytes &b) {
+  AddRes r; AddFn f = [&](tN2kMsg &m, const char *p) { m.AddBuf(p, b.size()); };
+  g_rawSrc = true; bool ok = doAdd("addbuf", fill, junk, b, f, r); g_rawSrc = false;
+  if (!ok) return;
+  outAdd(r);
+  int k = std::min<int>((int)b.size(), 223 - fill);
+  if (r.len != fill + k) C.fail("C16:addbuf:length", "DataLen %d, expected %d+min(%zu,free)", r.len, fill, b.size());
+  if (k > 0 && memcmp(r.data + fill, b.data(), k)) C.fail("C16:addbuf:content", "bytes added differ from the source");
+  for (int i = fill + k; i < 223; i++) if (r.data[i] != junkAt(junk, i)) { C.fail("C16:addbuf:beyond", "Data[%d] behind the bytes added changed", i); break; }
+  C.nontrivial("addbuf " + std::to_string(fill) + " " + std::to_string(b.size()));
+}
+static void opGetBuf(size_t length, size_t extra, int idx, int dj, int junk, const Bytes &d) {
+  size_t n = length + extra;
+  GetFn f = [=](const tN2kMsg &m, char *b, size_t &, int &i) { return m.GetBuf(b, length, i); };
+  GetRes g = doGet("getbuf", d, junk, n, dj, idx, f, false); outGet(g, false);
+  bool fit = (size_t)idx + length <= d.size();
+  if (g.ret != fit) C.fail("C16:getbuf:ret", "returned %d for Index %d Length %zu DataLen %zu", g.ret, idx, length, d.size());
+  if (fit) {
+    if (length && memcmp(g.dst.data(), d.data() + idx, length)) C.fail("C16:getbuf:content", "bytes extracted differ from the payload");
+    if (g.idx != idx + (int)length) C.fail("C16:getbuf:index-not-advanced", "Index %d after extracting %zu bytes from %d", g.idx, length, idx);
+  } else {
+    if (g.idx != (int)d.size()) C.fail("C16:getbuf:index", "Index %d after a refused GetBuf, DataLen %zu", g.idx, d.size());
+    for (size_t i = 0; i < length; i++) if (g.dst[i] != (unsigned char)dj) { C.fail("C16:getbuf:refused-write", "refused GetBuf wrote to the buffer"); break; }
+  }
+  for (size_t i = length; i < n; i++) if (g.dst[i] != (unsigned char)dj) { C.fail("C16:getbuf:overrun", "byte %zu behind the %zu requested changed", i, length); break; }
+  C.nontrivial("getbuf " + std::to_string(length) + " " + std::to_string(idx) + " " + std::to_string(d.size()));
+}
+static void opGetBuf0(size_t length, int idx, int junk, const Bytes &d) {
+  tN2kMsg *m = msgOf(d, junk); int i = idx; bool r = m->GetBuf(nullptr, length, i); delete m;
+  C.out("%d %d", r ? 1 : 0, i);
+  bool fit = (size_t)idx + length <= d.size();
+  if (r != fit || i != (fit ? idx + (int)length : (int)d.size())) C.fail("C16:getbuf0:result", "ret %d Index %d", r, i);
+  C.nontrivial("getbuf0 " + std::to_string(length) + " " + std::to_string(idx) + " " + std::to_string(d.size()));
+}
+static void opRtBuf(int fill, int dj, int junk, const Bytes &a, const Bytes &b) {
+  tN2kMsg *m = mkMsg(fill, junk);
+  { char *p = mallocBuf(a); m->AddBuf(p, a.size()); free(p); }
+  { char *p = mallocBuf(b); m->AddBuf(p, b.size()); free(p); }
+  int len = m->DataLen, idx = fill;
+  char *x = (char *)malloc(a.size()), *y = (char *)malloc(b.size());
+  if (a.size()) memset(x, dj, a.size()); if (b.size()) memset(y, dj, b.size());
+  bool r1 = m->GetBuf(x, a.size(), idx); bool r2 = m->GetBuf(y, b.size(), idx);
+  C.out("%d %d %d %d %s %s", len, r1, r2, idx, hex((unsigned char *)x, a.size()).c_str(), hex((unsigned char *)y, b.size()).c_str());
+  if (fill + (int)a.size() + (int)b.size() <= 223) {   // both arrays fit: they must come back, in order
+    if (!r1 || !r2 || (a.size() && memcmp(x, a.data(), a.size())) || (b.size() && memcmp(y, b.data(), b.size())))
+      C.fail(idx == fill && !a.empty() ? "C16:getbuf:index-not-advanced" : "C16:rtbuf:content", "two byte arrays added and read back in sequence differ (Index %d)", idx);
+    C.count("rt_checked");
+  }
+  free(x); free(y); delete m;
+  C.nontrivial("rtbuf " + std::to_string(fill) + " " + std::to_string(a.size()) + " " + std::to_string(b.size()));
+}
+
 // ---------------------------------------------------------------------------------------------- exec
 static long num(const std::string &s) { return strtol(s.c_str(), nullptr, 10); }
 static void exec(const std::string &line) {
@@ -345,6 +437,12 @@ static void exec(const std::string &line) {
   } else if (k == "rtstr" && w.size() == 7) opRtStr(num(w[1]), num(w[2]), num(w[3]), num(w[4]), num(w[5]), unhex(w[6]));
   else if (k == "rtais" && w.size() == 7) opRtAis(num(w[1]), num(w[2]), num(w[3]), num(w[4]), num(w[5]), unhex(w[6]));
   else if (k == "rtvar" && w.size() == 9) opRtVar(num(w[1]), num(w[2]), num(w[3]), num(w[4]), num(w[5]), num(w[6]), num(w[7]), unhex(w[8]));
+  else if (k == "addvar2" && w.size() == 4) opAddVar2(num(w[1]), num(w[2]), unhex(w[3]));
+  else if (k == "rtvar2" && w.size() == 6) opRtVar2(num(w[1]), num(w[2]), num(w[3]), num(w[4]), unhex(w[5]));
+  else if (k == "addbuf" && w.size() == 4) opAddBuf(num(w[1]), num(w[2]), unhex(w[3]));
+  else if (k == "getbuf" && w.size() == 7) opGetBuf(num(w[1]), num(w[2]), num(w[3]), num(w[4]), num(w[5]), unhex(w[6]));
+  else if (k == "getbuf0" && w.size() == 5) opGetBuf0(num(w[1]), num(w[2]), num(w[3]), unhex(w[4]));
+  else if (k == "rtbuf" && w.size() == 6) opRtBuf(num(w[1]), num(w[2]), num(w[3]), unhex(w[4]), unhex(w[5]));
   else C.out("bad-op");
 }
 
@@ -464,7 +562,7 @@ int main(int argc, char **argv) {
   for (const char *l : {"addvar 0 255 1 0 0 c3a9e2", "addvar 0 255 0 0 0 c3a9e2", "addvar 0 255 1 0 7 c3a9f04142c3a9", "addvar 0 255 1 0 7 c3a980",
                         "addvar 0 255 1 0 0 e282ac80", "rtvar 0 2 1 1 20 205 0 c3a9c3a9c3a9", "rtvar 219 255 1 0 20 205 0 c3a9c3a9c3a9",
                         "rtvar 0 255 1 0 3 205 0 e282ac", "rtvar 0 255 1 0 4 205 0 e282ac", "getvar 1 255 0 205 0 0401c3a9", "getvar 0 255 0 205 0 0400c300", "getvar 0 255 0 205 0 0501414243", "getvar 0 255 0 205 0 0700c300e90041",
-                        "getstr 1 3 255 0 205 0 414243", "getstr1 0 0 205 0 -", "addais 223 5 0 4142", "addstr 223 0 255 0 4142"})
+                        "getstr 1 3 255 0 205 0 414243", "rtbuf 0 205 0 0102 0304", "getbuf 2 1 1 205 0 0a0b0c0d", "getbuf 2 0 3 205 0 0a0b0c0d", "getbuf0 2 1 0 0a0b0c0d", "addbuf 221 0 0102030405", "rtvar2 0 8 205 0 c3a941", "addvar2 222 0 4142", "getstr1 0 0 205 0 -", "addais 223 5 0 4142", "addstr 223 0 255 0 4142"})
     exec(l);
   // 1. small scope, exhaustive: short strings over a small alphabet x small maxima x both policies x both units at tight fill levels
   {
@@ -521,6 +619,46 @@ int main(int argc, char **argv) {
         d[0] = (unsigned char)lb; d[1] = (unsigned char)ty;
         exec(fmt("getvar %d 255 0 %d %d %s", n, (int)R.below(256), (int)R.below(256), hx(d).c_str()));
       }
+  // 6. AddVarStr(str) / GetVarStr(size,buf,Index): every fill level x lengths 0, 1, around the free space, 253, 254, > 254
+  for (int fill = 0; fill <= 223; fill++) {
+    int room = 223 - fill - 2;
+    std::vector<int> lens = {0, 1, room - 1, room, room + 1, 253, 254, 255, 300, (int)R.range(0, 300)};
+    for (int L : lens) {
+      if (L < 0) continue;
+      if (!C.thorough && (L == 254 || L == 300) && (fill % 8)) continue;
+      int kind = R.chance(1, 2) ? 0 : (int)R.pick(std::vector<int>{1, 1, 2, 3, 4});
+      Bytes s = genStr(R, kind, L);
+      if (R.chance(1, 2)) exec(fmt("rtvar2 %d %d %d %d %s", fill, R.chance(1, 2) ? (int)s.size() + 1 + (int)R.below(3) : pickBuf(R), (int)R.below(256), (int)R.below(256), hx(s).c_str()));
+      else exec(fmt("addvar2 %d %d %s", fill, (int)R.below(256), hx(s).c_str()));
+    }
+  }
+  // 7. AddBuf / GetBuf: every fill level x lengths around the free space; all offsets/lengths on small payloads
+  auto rndBytes = [&](int n) { Bytes b(n); for (auto &c : b) c = (unsigned char)R.below(256); return b; };
+  for (int fill = 0; fill <= 223; fill++) {
+    int room = 223 - fill;
+    for (int L : {0, 1, room - 1, room, room + 1, room + 40, (int)R.range(0, 300)}) {
+      if (L < 0) continue;
+      exec(fmt("addbuf %d %d %s", fill, (int)R.below(256), hx(rndBytes(L)).c_str()));
+    }
+    int la = (int)R.range(0, room), lb = R.chance(1, 4) ? (int)R.range(0, 60) : (int)R.range(0, room - la);
+    exec(fmt("rtbuf %d %d %d %s %s", fill, (int)R.below(256), (int)R.below(256), hx(rndBytes(la)).c_str(), hx(rndBytes(lb)).c_str()));
+  }
+  for (int dl = 0; dl <= (C.thorough ? 12 : 6); dl++)      // exhaustive: DataLen x Index x Length (Index at/after the end, reads past DataLen)
+    for (int idx = 0; idx <= dl + 2; idx++)
+      for (int L = 0; L <= dl + 2; L++) {
+        Bytes d = rndBytes(dl);
+        exec(fmt("getbuf %d %d %d %d %d %s", L, (int)R.below(3), idx, (int)R.below(256), (int)R.below(256), hx(d).c_str()));
+        if ((idx + L) % 3 == 0) exec(fmt("getbuf0 %d %d %d %s", L, idx, (int)R.below(256), hx(d).c_str()));
+      }
+  for (int i = 0, nI = C.thorough ? 40000 : 3000; i < nI; i++) {
+    int dl = R.chance(1, 4) ? (int)R.range(215, 223) : (int)R.range(0, 223);
+    Bytes d = rndBytes(dl);
+    int idx = R.chance(1, 5) ? (int)R.range(dl > 3 ? dl - 3 : 0, dl + 3) : (int)R.range(0, dl);
+    int L = R.chance(1, 3) ? (int)R.range(0, 4) : R.chance(1, 2) ? (int)R.range(0, dl - std::min(idx, dl)) : (int)R.range(0, 230);
+    if (R.chance(1, 8)) exec(fmt("getbuf0 %d %d %d %s", L, idx, (int)R.below(256), hx(d).c_str()));
+    else exec(fmt("getbuf %d %d %d %d %d %s", L, (int)R.below(4), idx, (int)R.below(256), (int)R.below(256), hx(d).c_str()));
+  }
+  C.sample("AddVarStr(str)+GetVarStr at every fill level (lengths 0,1,free-1..free+1,253,254,255,300); AddBuf/GetBuf at every fill level, exhaustive DataLen x Index x Length on small payloads, random large ones");
   C.sample("read side: getstr1/getstr/getvar on arbitrary payloads (every length byte 0..255 x type {0,1,2,255}), destination sizes 0..80");
   C.finish();
   return 0;
